@@ -42,7 +42,22 @@ func cmpNA(pf *sipsp.PFromBody, na *gen.NASpec, buf []byte, kind sipsp.HdrT) (st
 		return fmt.Sprintf("Star = %v, written star = %v", pf.Star, na.Star), ""
 	}
 	if !pfIs(pf.V, na.V) {
-		return fmt.Sprintf("V = %s, the complete trimmed value is %s", got(pf.V), txt(na.V)), ""
+		// V itself is not one of the things the statement lists; it only has to be a trimmed
+		// span inside the written value that covers everything that is reported inside it
+		vs, ve := int(pf.V.Offs), int(pf.V.Offs)+int(pf.V.Len)
+		core := na.URI
+		if !na.Bare && !na.Star {
+			core = gen.Span{S: na.URI.S - 1, E: na.URI.E + 1}
+		}
+		if na.HasName && na.Name.S < core.S {
+			core.S = na.Name.S
+		}
+		if na.HasParams && na.ParamsSp.E > core.E {
+			core.E = na.ParamsSp.E
+		}
+		if vs < na.V.S || ve > na.V.E || vs > core.S || ve < core.E || (pf.V.Len > 0 && (ref.IsLWSByte(buf[vs]) || ref.IsLWSByte(buf[ve-1]))) {
+			return fmt.Sprintf("V = %s, the complete trimmed value is %s", got(pf.V), txt(na.V)), ""
+		}
 	}
 	if !pfIs(pf.URI, na.URI) {
 		return fmt.Sprintf("URI = %s, written URI is %s", got(pf.URI), txt(na.URI)), ""
